@@ -6,6 +6,8 @@ import vlib
 def run(tier):
     chk = vlib.Check("C12", tier)
     thorough = tier == "thorough"
+    if thorough:
+        chk.model("MCFactor", what="exact factorisation on an integer lattice (8 scales x 27 shears x 24 rotations): the product S*H*R determines its factors (5184 distinct products), the factors are what Gram-Schmidt on the rows reads off (row_i . row_j identities), S * (H * R) = M with det(H * R) = 1, and negating all scales gives -M with negative determinant", timeout=3600)
     chk.model("MCLinAlg", what="polynomial definitions shared with C05: matrix product, determinant, transpose identities")
     exe = vlib.compile_harness("rec_factor", ["rec_factor.cpp", os.path.join(vlib.REPO, "src/Imath/ImathMatrixAlgo.cpp")])
     w = chk.work
